@@ -39,6 +39,15 @@ func modA() dump.File {
 
 func imp(n string) string { return `module ` + n + ` { ` + H(n) + ` import a { prefix a; } ` }
 
+// Scenarios returns the conflict library as (name, files) pairs for other checks that want a corpus of module sets.
+func Scenarios() (names []string, files [][]dump.File) {
+	for _, s := range scenarios() {
+		names = append(names, s.name)
+		files = append(files, s.files)
+	}
+	return
+}
+
 func scenarios() []scenario {
 	var out []scenario
 	add := func(name string, classes []string, files ...dump.File) {
